@@ -56,7 +56,7 @@ MAXLINE = 65529
 
 
 def quick_runs(prop):
-    return 2600 if prop == 'C13' else 1500
+    return 3000
 
 
 ###############################################################################
@@ -297,6 +297,7 @@ class _Gen13(object):
         self.have = set()
         self.grave = []
         self.saved = []
+        self.savedfmt = {}
         rnd = rng.randint
         self.centres = [0, 10, 100, 1000, 32767, MAXLINE, rnd(0, MAXLINE), rnd(0, MAXLINE)]
         self.dense = rng.random() < 0.5
@@ -374,7 +375,9 @@ class _Gen13(object):
 
     def fault(self, kinds, maxn):
         rng = self.rng
-        f = {'kind': rng.choice(kinds), 'nth': rng.choice([1, 1, 2, 3, rng.randint(1, maxn)]),
+        # text files are read and written a byte at a time (plus 2-3 calls when opening), tokenised
+        # files in 3 calls: small counts hit the open path, large ones the middle of a text file
+        f = {'kind': rng.choice(kinds), 'nth': rng.choice([1, 2, 3, rng.randint(4, 40), rng.randint(4, 200), rng.randint(4, maxn)]),
              'err': rng.choice(_ERRNOS)}
         if f['kind'] == 'write' and rng.random() < 0.4:
             f['torn'] = rng.randint(0, 40)
@@ -428,8 +431,9 @@ class _Gen13(object):
                 name = rng.choice(DISK_NAMES + BOUND_NAMES)
                 op = {'op': 'save', 'name': name, 'fmt': rng.choice(['A', 'A', 'B', 'B', 'P'])}
                 if faulty and rng.random() < 0.45:
-                    op['fault'] = self.fault(['write', 'write', 'open', 'close', 'flush'], 300)
+                    op['fault'] = self.fault(['write', 'write', 'open', 'close', 'flush'], 1200)
                 out.append(op)
+                self.savedfmt[name] = (op['fmt'], len(self.have))
                 if name not in self.saved:
                     self.saved.append(name)
             elif r < 0.83:
@@ -439,8 +443,12 @@ class _Gen13(object):
                     q = rng.random()
                     if q < 0.30:
                         op['tear'] = rng.choice([0, 1, 2, 999, rng.randint(0, 1000), rng.randint(0, 1000)])
-                    elif q < 0.55:
-                        op['fault'] = self.fault(['read', 'read', 'read', 'open', 'seek', 'close'], 400)
+                    elif q < 0.65:
+                        op['fault'] = self.fault(['read', 'read', 'read', 'open', 'seek', 'close'], 1200)
+                        fmt, nl = self.savedfmt.get(name, ('B', 0))
+                        if op['fault']['kind'] == 'read' and fmt != 'B' and rng.random() < 0.7:
+                            # text and protected files are read a byte at a time: aim inside the file
+                            op['fault']['nth'] = rng.randint(3, 5 + (22 if fmt == 'A' else 12) * max(1, nl))
                 out.append(op)
             elif r < 0.88:
                 a, c, single = self.rng_pair()
@@ -589,7 +597,12 @@ def run13(case):
                 prev[0] = kind
 
             def c01(e, what):
-                run.violate('C01', 'crash:%s:%s' % (e.signature, what), '%s: %s\n%s' % (e.exc_type, e.exc_msg, e.tb))
+                # an internal error under an injected fault is C01's business; the class of the
+                # host error (PermissionError, FileNotFoundError, ...) is not part of the signature
+                import builtins
+                et = getattr(builtins, e.exc_type, None)
+                name = 'OSError' if isinstance(et, type) and issubclass(et, OSError) else e.exc_type
+                run.violate('C01', 'crash:%s@%s:%s' % (name, e.frame, what), '%s: %s\n%s' % (e.exc_type, e.exc_msg, e.tb))
 
             def check_list(tag, dirty=None):
                 got = E.list_file()
@@ -781,7 +794,10 @@ def run13(case):
                         M.lines = {}
                     else:
                         M.lines = chosen
+                        if relaxed:
+                            run.probe('ascii_%s_after_fault_or_tear' % kindname)
                         if dirty is not None:
+                            run.probe('torn_last_line_removed')
                             # the torn last line is outside the claim: remove it on both sides
                             E.x(b'%d' % dirty)
                             M.lines.pop(dirty, None)
@@ -812,6 +828,15 @@ def run13(case):
                     else:
                         run.violate('C13', 'load-binary-result-not-from-file:' + tag,
                                     'after a failed LOAD the program is neither the old one, empty, nor the file: ' + _diff(got, blist))
+                        E.x(b'NEW')
+                        M.lines = {}
+                    # the listing (index) may look fine while program memory holds something else
+                    nums, problem = E.peek_chain(len(full) + len(before) + 3)
+                    if problem is not None or nums != sorted(M.lines):
+                        run.violate('C13', 'load-failed-midway:memory-disagrees-with-listing:%s-file' % kind,
+                                    'LOAD of a %s file failed with %r after an injected read error; LIST shows lines %r but the '
+                                    'line links from DS:30h give %r (%s)' % (kind, r.errs if r else 'internal error',
+                                                                             sorted(M.lines)[:20], nums[:20], problem))
                         E.x(b'NEW')
                         M.lines = {}
                     note('load' + kind, outcome, relaxed)
@@ -954,7 +979,7 @@ def run13(case):
                     continue
                 if mutated and op.get('chk'):
                     check_chain('after-' + k)
-                if len(run.res['violations']) >= 4:
+                if sum(1 for v in run.res['violations'] if v['prop'] == 'C13') >= 3:
                     break
             # closing checks: console LIST, chain, and a re-scan through SAVE,A
             if not any(v['prop'] == 'C13' for v in run.res['violations']):
@@ -1333,7 +1358,7 @@ def _arm14(run, w, case, root, do_renum, decisions):
                 n = int(op['n'])
                 r = E.x(b'%d %s' % (n, b(ptext(op['parts']))))
                 if r.err is None:
-                    M.lines[n] = {'parts': op['parts'], 'k': 'x', 'uid': None}
+                    M.lines[n] = {'parts': op['parts'], 'k': 'x', 'uid': None, 'role': op.get('role')}
                     orig[n] = n
                 else:
                     raise K.HarnessError('C14 generator produced a line the engine rejects: %d %s -> %r' % (
@@ -1358,7 +1383,10 @@ def _arm14(run, w, case, root, do_renum, decisions):
                     # not a line number: a syntax matter, outside this check
                     continue
                 plan = M.renum_plan(op.get('new'), op.get('old'), op.get('step'))
-                trapcls = 'none'
+                # where the lines named by ON ERROR GOTO / ON <event> GOSUB lie relative to `old`
+                tl = [t for v in M.lines.values() if v.get('role') == 'setup' for t in prefs(v['parts'])]
+                o_ = op.get('old') or 0
+                trapcls = (any(t < o_ for t in tl), any(t >= o_ for t in tl))
                 if do_renum:
                     text = _renum_text(op)
                     before = M.listing()
@@ -1366,7 +1394,7 @@ def _arm14(run, w, case, root, do_renum, decisions):
                         r = E.x(text)
                     except EngineCrash as e:
                         which = 'error-trap' if 'self.on_error' in e.tb[-400:] else 'event-trap' if 'handler.gosub' in e.tb[-400:] else 'other'
-                        run.state('C14', 'renum', 'crash', which, len(M.lines) > 10)
+                        run.state('C14', 'renum', 'crash', which, trapcls, len(M.lines) > 10)
                         run.violate('C14', 'renum-crash:%s:armed-%s-line-not-in-renumbered-range' % (e.signature, which)
                                     if which != 'other' else 'renum-crash:%s' % e.signature,
                                     '%s with program\n%s\n-> %s: %s\n%s' % (
@@ -1445,7 +1473,7 @@ def _arm14(run, w, case, root, do_renum, decisions):
                     if problem or nums != sorted(M.lines):
                         run.violate('C14', 'renum-chain:%s' % (problem or 'numbers-differ'), 'links give %r, model %r' % (nums[:60], sorted(M.lines)[:60]))
                     run.state('C14', 'renum', accepted, plan['ok'], op.get('new') is None, op.get('old') is None,
-                              op.get('step') is None, len(M.lines) > 10, bool(plan['missing']))
+                              op.get('step') is None, len(M.lines) > 10, bool(plan['missing']), trapcls, not r.errs)
                 else:
                     dec = decisions.get(i)
                     if dec is True:
@@ -1499,7 +1527,11 @@ def run14(case):
                 elif kind == 'err':
                     sig = 'trap-follow:error-trap:direct-mode-ERROR-after-renum'
                 elif kind == 'goto':
-                    sig = 'trap-follow:event-trap:%s' % ('+'.join(evk) or 'none')
+                    # name the first handler that ran in the original but not after RENUM
+                    hb = re.findall(br'EV(key|timer|pen|strig)', bo)
+                    ha = re.findall(br'EV(key|timer|pen|strig)', a)
+                    lost = [h for h in hb if h not in ha]
+                    sig = 'trap-follow:event-trap:%s' % (u(lost[0]) if lost else 'output-differs')
                 else:
                     sig = 'behaviour:run-output-differs' + (':with-events' if evk else '')
                 if not any_renum:
